@@ -546,6 +546,7 @@ fn check_candidate(
     };
     // (a) direct
     report.count("presentations", 1);
+    let _watch = crate::util::watch::enter("candidate as a single remote insert", case("direct", None, false));
     match catch(|| present_direct(&cand, ok)) {
         Err(p) => report.violation(
             "no_panic",
@@ -565,6 +566,7 @@ fn check_candidate(
         let have_local = li % 2 == 0;
         report.count("presentations", 1);
         let canonical = raw.encode();
+        let _watch = crate::util::watch::enter("candidate inside a reconciliation message", case("message", Some(l), have_local));
         match catch(|| present_in_message(&canonical, &cand, ok, l, have_local)) {
             Err(p) => report.violation(
                 "no_panic",
